@@ -68,9 +68,15 @@ static Snapshot snap(PDU* root) {
     return s;
 }
 static std::vector<PDU*> pool;
+static std::set<const PDU*> husks;   // moved-from objects: valid but unspecified; only destroyed, assigned to, or given a new child
 static std::vector<Packet*> packets;
 static std::string g_prog;
 
+// EthernetII/Dot3/Dot1Q::trailer_size() ask for the size of everything they carry, so size() of a chain with k nested
+// Ethernet-like layers costs 2^k calls; real packets nest at most two or three (VXLAN). Keep the programs realistic.
+static size_t n_layers(const PDU* p) { size_t n = 0; for (; p; p = p->inner_pdu()) ++n; return n; }
+static size_t n_eth(const PDU* p) { size_t n = 0; for (; p; p = p->inner_pdu()) if (dynamic_cast<const EthernetII*>(p) || dynamic_cast<const Dot3*>(p) || dynamic_cast<const Dot1Q*>(p)) ++n; return n; }
+static bool too_big(const PDU* a, const PDU* b) { return n_layers(a) + n_layers(b) > 24 || n_eth(a) + n_eth(b) > 5; }
 static bool check_forest(const std::string& after) {
     std::unordered_map<const PDU*, int> reach; bool ok = true;
     auto walk = [&](const PDU* root, const char* owner) {
@@ -113,7 +119,7 @@ static PDU* fresh(Rng& r) {
 }
 
 static void program(Rng& r) {
-    g_prog.clear(); pool.clear(); packets.clear(); g_live.clear();
+    g_prog.clear(); pool.clear(); packets.clear(); g_live.clear(); husks.clear();
     g_hook_on = true;
     u32 steps = 5 + r.below(60);
     for (u32 k = 1 + r.below(3); k--;) pool.push_back(fresh(r));
@@ -122,6 +128,8 @@ static void program(Rng& r) {
         if (pool.empty()) pool.push_back(fresh(r));
         u32 ai = r.below((u32)pool.size()); PDU* a = pool[ai];
         u32 op = r.below(20); std::string name;
+        if (husks.count(a)) { u32 h = r.below(3); op = h == 0 ? 16 : h == 1 ? 21 : 22; }
+        describe_case(g_prog + " <next op=" + std::to_string(op) + " on #" + std::to_string(ai) + ">");
         switch (op) {
             case 0: { if (pool.size() < 12) { pool.push_back(fresh(r)); } name = "construct"; break; }
             case 1: { name = "clone"; Snapshot sa = snap(a); PDU* c = a->clone(); g_prog += "clone(#" + std::to_string(ai) + "); "; pool.push_back(c); Snapshot sc = snap(c); same(sa, sc, name, cls(a));
@@ -133,31 +141,35 @@ static void program(Rng& r) {
                       PDU* d = nullptr; u32 di = 0; for (u32 t = 0; t < pool.size(); ++t) if (pool[t] != a && o->is(pool[t])) { d = pool[t]; di = t; if (r.chance(1, 2)) break; }
                       if (!d) { if (pool.size() >= 12) break; d = o->make(); if (IP* ip = dynamic_cast<IP*>(d)) ip->src_addr("9.9.9.9"); if (r.chance(2, 3)) { PDU* t = d; for (u32 k = 1 + r.below(3); k--;) { Bytes b = r.bytes(1 + r.below(5)); PDU* n = k ? (PDU*)new Dot1Q(r.below(4000)) : (PDU*)new RawPDU(b.data(), (u32)b.size()); t->inner_pdu(n); t = n; } } pool.push_back(d); di = (u32)pool.size() - 1; g_prog += "new " + o->name + "(+layers); "; }
                       size_t la = 0, ld = 0; for (PDU* q = a; q; q = q->inner_pdu()) ++la; for (PDU* q = d; q; q = q->inner_pdu()) ++ld;
+                      husks.erase(d);
                       Snapshot sa = snap(a); o->copy_assign(d, a); g_prog += "#" + std::to_string(di) + " = #" + std::to_string(ai) + " (" + o->name + ", " + std::to_string(ld) + "<-" + std::to_string(la) + " layers); ";
                       cnt(la < ld ? "op:copy-assign-shorter-over-longer" : la > ld ? "op:copy-assign-longer-over-shorter" : "op:copy-assign-same-length");
                       Snapshot sd = snap(d); same(sa, sd, name, o->name + (la < ld ? "/shorter-over-longer" : ""));
                       poke(d, r); Snapshot sa2 = snap(a); if (sa2.view != sa.view || sa2.bytes != sa.bytes) violation("copy-assign/not-independent/" + o->name, "changing the target changed the source :: " + g_prog); break; }
             case 7: { name = "self-assign"; const Ops* o = ops_for(a); if (!o) break; Snapshot sa = snap(a); o->copy_assign(a, a); g_prog += "#" + std::to_string(ai) + " = itself; "; Snapshot sb = snap(a); same(sa, sb, name, o->name); cnt("op:self-assign"); break; }
             case 8: { name = "move-construct"; const Ops* o = ops_for(a); if (!o) break; Snapshot sa = snap(a); PDU* c = o->move_construct(a); g_prog += "move-ctor(#" + std::to_string(ai) + ":" + o->name + "); "; pool.push_back(c); Snapshot sc = snap(c); same(sa, sc, name, o->name);
-                      if (a->inner_pdu()) violation("move-construct/source-keeps-child/" + o->name, "moved-from object still owns layers :: " + g_prog); cnt("op:move-construct");
-                      if (r.chance(1, 2)) { delete a; pool.erase(pool.begin() + ai); g_prog += "delete moved-from; "; } else if (r.chance(1, 2)) { Bytes b = r.bytes(3); a->inner_pdu(new RawPDU(b.data(), 3)); g_prog += "reuse moved-from; "; } break; }
+                      if (a->inner_pdu()) violation("move-construct/source-keeps-child/" + o->name, "moved-from object still owns layers :: " + g_prog); cnt("op:move-construct"); husks.insert(a);
+                      if (r.chance(1, 2)) { husks.erase(a); delete a; pool.erase(pool.begin() + ai); g_prog += "delete moved-from; "; } else if (r.chance(1, 2)) { Bytes b = r.bytes(3); a->inner_pdu(new RawPDU(b.data(), 3)); g_prog += "reuse moved-from; "; } break; }
             case 9: case 10: { name = "move-assign"; const Ops* o = ops_for(a); if (!o) break; PDU* d = nullptr; u32 di = 0; for (u32 t = 0; t < pool.size(); ++t) if (pool[t] != a && o->is(pool[t])) { d = pool[t]; di = t; if (r.chance(1, 2)) break; }
                       if (!d) { if (pool.size() >= 12) break; d = o->make(); Bytes b = r.bytes(4); d->inner_pdu(new RawPDU(b.data(), 4)); pool.push_back(d); di = (u32)pool.size() - 1; g_prog += "new " + o->name + "/Raw; "; }
                       Snapshot sa = snap(a); o->move_assign(d, a); g_prog += "#" + std::to_string(di) + " = move(#" + std::to_string(ai) + ") (" + o->name + "); "; Snapshot sd = snap(d); same(sa, sd, name, o->name);
-                      if (a->inner_pdu()) { /* the moved-from object may keep nothing it does not own: checked by the forest walk */ } cnt("op:move-assign"); break; }
-            case 11: { name = "div"; const Ops* o = ops_for(a); if (!o) break; u32 bi = r.below((u32)pool.size()); PDU* b = pool[bi]; size_t lb = 0; for (PDU* q = b; q; q = q->inner_pdu()) ++lb; size_t la = 0; for (PDU* q = a; q; q = q->inner_pdu()) ++la; if (la + lb > 40) break;
+                      husks.insert(a); husks.erase(d); cnt("op:move-assign"); break; }
+            case 11: { name = "div"; const Ops* o = ops_for(a); if (!o) break; u32 bi = r.below((u32)pool.size()); PDU* b = pool[bi]; if (husks.count(b)) break; size_t lb = 0; for (PDU* q = b; q; q = q->inner_pdu()) ++lb; size_t la = 0; for (PDU* q = a; q; q = q->inner_pdu()) ++la; if (la + lb > 40 || too_big(a, b)) break;
                       Snapshot sb = snap(b); PDU* c = o->div(a, *b); g_prog += "#" + std::to_string(ai) + " / #" + std::to_string(bi) + "; "; pool.push_back(c);
                       size_t lc = 0; for (PDU* q = c; q; q = q->inner_pdu()) ++lc; if (lc != la + lb) violation("div/layer-count/" + o->name, "a / b has " + std::to_string(lc) + " layers, expected " + std::to_string(la + lb) + " :: " + g_prog);
                       Snapshot sb2 = snap(b); if (sb2.view != sb.view) violation("div/modified-operand", "operator/ changed its right operand :: " + g_prog); cnt("op:div"); break; }
-            case 12: { name = "div-assign"; const Ops* o = ops_for(a); if (!o) break; u32 bi = r.below((u32)pool.size()); PDU* b = pool[bi]; if (b == a) break; size_t lb = 0; for (PDU* q = b; q; q = q->inner_pdu()) ++lb; size_t la = 0; for (PDU* q = a; q; q = q->inner_pdu()) ++la; if (la + lb > 40) break;
+            case 12: { name = "div-assign"; const Ops* o = ops_for(a); if (!o) break; u32 bi = r.below((u32)pool.size()); PDU* b = pool[bi]; if (b == a || husks.count(b)) break; size_t lb = 0; for (PDU* q = b; q; q = q->inner_pdu()) ++lb; size_t la = 0; for (PDU* q = a; q; q = q->inner_pdu()) ++la; if (la + lb > 40 || too_big(a, b)) break;
                       o->div_assign(a, *b); g_prog += "#" + std::to_string(ai) + " /= #" + std::to_string(bi) + "; "; size_t lc = 0; for (PDU* q = a; q; q = q->inner_pdu()) ++lc; if (lc != la + lb) violation("div-assign/layer-count/" + o->name, "a /= b has " + std::to_string(lc) + " layers, expected " + std::to_string(la + lb) + " :: " + g_prog); cnt("op:div-assign"); break; }
-            case 13: { name = "inner_pdu(ptr)"; if (pool.size() < 2) break; u32 bi = r.below((u32)pool.size()); if (bi == ai) break; PDU* b = pool[bi]; PDU* at = a; u32 depth = r.below(3); while (depth-- && at->inner_pdu()) at = at->inner_pdu();
+            case 13: { name = "inner_pdu(ptr)"; if (pool.size() < 2) break; u32 bi = r.below((u32)pool.size()); if (bi == ai) break; PDU* b = pool[bi]; if (husks.count(b) || too_big(a, b)) break; PDU* at = a; u32 depth = r.below(3); while (depth-- && at->inner_pdu()) at = at->inner_pdu();
                       at->inner_pdu(b); pool.erase(pool.begin() + bi); g_prog += "#" + std::to_string(ai) + ".inner_pdu(ptr #" + std::to_string(bi) + "); "; cnt("op:inner_pdu-ptr"); break; }
-            case 14: { name = "inner_pdu(ref)"; u32 bi = r.below((u32)pool.size()); PDU* b = pool[bi]; size_t lb = 0; for (PDU* q = b; q; q = q->inner_pdu()) ++lb; if (lb > 30) break; PDU* at = a; u32 depth = r.below(3); while (depth-- && at->inner_pdu()) at = at->inner_pdu(); if (at == b) break; bool inside = false; for (PDU* q = b; q; q = q->inner_pdu()) if (q == at) inside = true; if (inside) break;
+            case 14: { name = "inner_pdu(ref)"; u32 bi = r.below((u32)pool.size()); PDU* b = pool[bi]; if (husks.count(b) || too_big(a, b)) break; size_t lb = 0; for (PDU* q = b; q; q = q->inner_pdu()) ++lb; if (lb > 30) break; PDU* at = a; u32 depth = r.below(3); while (depth-- && at->inner_pdu()) at = at->inner_pdu(); if (at == b) break; bool inside = false; for (PDU* q = b; q; q = q->inner_pdu()) if (q == at) inside = true; if (inside) break;
                       at->inner_pdu(*b); g_prog += "#" + std::to_string(ai) + ".inner_pdu(ref #" + std::to_string(bi) + "); "; cnt("op:inner_pdu-ref"); break; }
             case 15: { name = "release_inner_pdu"; PDU* at = a; u32 depth = r.below(3); while (depth-- && at->inner_pdu()) at = at->inner_pdu(); PDU* rel = at->release_inner_pdu(); g_prog += "#" + std::to_string(ai) + ".release_inner_pdu(); ";
                       if (rel) { if (rel->parent_pdu()) violation("release/parent-link", "released layer still has a parent :: " + g_prog); if (r.chance(1, 3)) { delete rel; g_prog += "delete released; "; } else if (r.chance(1, 2) && pool.size() < 12) pool.push_back(rel); else { at->inner_pdu(rel); g_prog += "re-attach; "; } } cnt("op:release"); break; }
-            case 16: { name = "delete"; delete a; pool.erase(pool.begin() + ai); g_prog += "delete #" + std::to_string(ai) + "; "; cnt("op:delete"); break; }
+            case 21: { name = "reuse-moved-from:new-child"; Bytes b = r.bytes(3); a->inner_pdu(new RawPDU(b.data(), 3)); g_prog += "#" + std::to_string(ai) + "(moved-from).inner_pdu(new Raw); "; cnt("op:reuse-moved-from"); break; }
+            case 22: { name = "reuse-moved-from:assign-into"; const Ops* o = ops_for(a); if (!o) break; PDU* src = nullptr; u32 si = 0; for (u32 t = 0; t < pool.size(); ++t) if (pool[t] != a && !husks.count(pool[t]) && o->is(pool[t])) { src = pool[t]; si = t; break; } if (!src) break;
+                      Snapshot ss = snap(src); o->copy_assign(a, src); husks.erase(a); g_prog += "#" + std::to_string(ai) + "(moved-from) = #" + std::to_string(si) + "; "; Snapshot sd = snap(a); same(ss, sd, "copy-assign-into-moved-from", o->name); cnt("op:reuse-moved-from"); break; }
+            case 16: { name = "delete"; husks.erase(a); delete a; pool.erase(pool.begin() + ai); g_prog += "delete #" + std::to_string(ai) + "; "; cnt("op:delete"); break; }
             case 17: { name = "packet-wrap"; if (packets.size() >= 4) { delete packets.back(); packets.pop_back(); g_prog += "~Packet; "; break; }
                       u32 how = r.below(4); Packet* pk = nullptr; Snapshot sa = snap(a);
                       if (how == 0) { pk = new Packet(*a); g_prog += "Packet(copy of #" + std::to_string(ai) + "); "; }
